@@ -106,11 +106,26 @@ def case(ctx, rnd, i):
             if tbs and rnd.random() < 0.3 and rs.nodes[inner].inline_content:
                 # types_after as editors use it: another textblock type for the part after the split
                 ta = [structure.NodeTypeWithAttrs(S.nodes[rnd.choice(tbs)], None)]
-            ok, res = helper("can_split", lambda: structure.can_split(d, pos, depth, ta), (pos, depth, ta and ta[0].type.name))
+            if depth >= 2 and rnd.random() < 0.3:
+                # one entry per split level, outermost first: the ancestor's own type and attrs
+                # (what splitting a list item does), nothing, or another textblock type innermost
+                rp_ = d.resolve(pos)
+                if rp_.depth >= depth:
+                    ta = []
+                    for lv in range(rp_.depth - depth + 1, rp_.depth + 1):
+                        nd_ = rp_.node(lv)
+                        if lv == rp_.depth and tbs and nd_.inline_content and rnd.random() < 0.4:
+                            ta.append(structure.NodeTypeWithAttrs(S.nodes[rnd.choice(tbs)], None))
+                        elif rnd.random() < 0.25 and ta:
+                            ta.append(None)
+                        else:
+                            ta.append(structure.NodeTypeWithAttrs(nd_.type, nd_.attrs))
+                    ctx.count("can_split_types_after_per_level")
+            ok, res = helper("can_split", lambda: structure.can_split(d, pos, depth, ta), (pos, depth, ta and [x and x.type.name for x in ta]))
             if not ok:
                 continue
             if res:
-                tr = perform("can_split", (pos, depth, ta and ta[0].type.name), lambda t: t.split(pos, depth, ta), True, {"depth": depth, "types_after": ta is not None})
+                tr = perform("can_split", (pos, depth, ta and [x and x.type.name for x in ta]), lambda t: t.split(pos, depth, ta), True, {"depth": depth, "types_after": ta is not None})
                 ctx.cover([sid, "can_split", True, depth, ta is not None, tr is not None])
             else:
                 ctx.cover([sid, "can_split", False, depth], nontrivial=False)
